@@ -62,6 +62,106 @@ def render_layout(rng, toks):
     return "".join(out).encode("utf-8")
 
 
+# only the extensions that own COMMANDS: tags and match types (copy, mailbox, imap4flags on fileinto/keep,
+# relational, regex, vacation-seconds) stay unloaded, so the tag-level gates are observable
+PARTIAL_EXT = ["fileinto", "reject", "envelope", "body", "vacation", "date", "variables"]
+PARTIAL_PREAMBLE = [T("id", "require"), T("[", "[")] + list(itertools.chain.from_iterable(
+    ([T("str", '"%s"' % e), T(",", ",")] for e in PARTIAL_EXT)))[:-1] + [T("]", "]"), T(";", ";")]
+
+
+def flip_case(rng, toks, p=0.3):
+    """Same tokens with random letter case in identifiers and tags (RFC 5228: case-insensitive)."""
+    out = []
+    for k, v in toks:
+        if k in ("id", "tag"):
+            v = "".join(c.upper() if rng.random() < p else c for c in v)
+        out.append((k, v))
+    return out
+
+
+def structure_cases():
+    """Deterministic enumeration of structural irregularities: every command head x every way of ending it
+    (';', block, nothing, both), every test position filled with a test / nothing / a non-test / a test list,
+    alone and after a leading valid or invalid if-command, with elsif/else continuations."""
+    tests = [[], [T("id", "true")], [T("id", "not"), T("id", "true")], [T("id", "not")],
+             [T("id", "anyof"), T("(", "("), T("id", "true"), T(")", ")")],
+             [T("id", "allof"), T("(", "("), T("id", "true"), T(",", ","), T("id", "false"), T(")", ")")],
+             [T("id", "anyof"), T("(", "("), T(")", ")")], [T("id", "anyof")],
+             [T("id", "not"), T("id", "anyof"), T("(", "("), T("id", "true"), T(")", ")")],
+             [T("id", "header"), T("tag", ":is"), T("str", '"a"'), T("str", '"b"')],
+             [T("id", "header"), T("tag", ":is"), T("str", '"a"')],
+             [T("id", "exists"), T("str", '"a"')], [T("id", "stop")], [T("id", "size"), T("tag", ":over"), T("num", "10")],
+             [T("id", "true"), T("id", "true")], [T("(", "("), T("id", "true"), T(")", ")")]]
+    heads = [[T("id", "stop")], [T("id", "keep")], [T("id", "discard")], [T("id", "redirect"), T("str", '"a"')],
+             [T("id", "redirect")], [T("id", "true")], [T("id", "foo")], [T("id", "else")],
+             [T("id", "require"), T("str", '"fileinto"')], [T("id", "set"), T("str", '"a"'), T("str", '"b"')]]
+    for t in tests:
+        heads.append([T("id", "if")] + t)
+        heads.append([T("id", "elsif")] + t)
+    heads += [[T("id", "else")] + t for t in tests[1:5]]
+    heads += [[T("id", "stop")] + t for t in tests[1:5]]
+    blk = [T("{", "{"), T("}", "}")]
+    blk1 = [T("{", "{"), T("id", "stop"), T(";", ";"), T("}", "}")]
+    semi = [T(";", ";")]
+    terms = [semi, blk, blk1, [], semi + semi, blk + semi, semi + blk, [T("{", "{")], [T("}", "}")],
+             [T("{", "{"), T("id", "stop"), T("}", "}")], [T("{", "{"), T(";", ";"), T("}", "}")]]
+    leads = [[], [T("id", "if"), T("id", "true")] + blk1, [T("id", "if"), T("id", "true")] + blk1 + [T("id", "elsif"), T("id", "false")] + blk,
+             [T("id", "if"), T("id", "true")] + blk + [T("id", "else")] + blk, [T("id", "stop"), T(";", ";")],
+             [T("id", "if"), T("id", "true"), T("{", "{")]]
+    tails = [[], [T("id", "stop"), T(";", ";")], [T("}", "}")], [T("id", "else")] + blk]
+    for lead in leads:
+        for h in heads:
+            for tm in terms:
+                for tl in tails:
+                    if tl and (lead and lead[-1][0] != "{") and tl[0][0] == "}":
+                        continue
+                    yield lead + h + tm + tl
+
+
+def structural_mutants(rng, toks, n):
+    """Edits of whole constructs: a balanced block replaced by ';', a ';' replaced by an empty block, a
+    balanced test list replaced by a single test or emptied, elsif<->else<->if swapped."""
+    out = []
+    idx_open = [i for i, t in enumerate(toks) if t[0] == "{"]
+    idx_semi = [i for i, t in enumerate(toks) if t[0] == ";"]
+    idx_par = [i for i, t in enumerate(toks) if t[0] == "("]
+    idx_kw = [i for i, t in enumerate(toks) if t[0] == "id" and t[1].lower() in ("if", "elsif", "else")]
+
+    def match(i, o, c):
+        d = 0
+        for j in range(i, len(toks)):
+            if toks[j][0] == o:
+                d += 1
+            elif toks[j][0] == c:
+                d -= 1
+                if d == 0:
+                    return j
+        return None
+    for _ in range(n):
+        kind = rng.choice(["blk2semi", "semi2blk", "emptylist", "kwswap", "blk2none"])
+        t = None
+        if kind in ("blk2semi", "blk2none") and idx_open:
+            i = rng.choice(idx_open)
+            j = match(i, "{", "}")
+            if j is not None:
+                t = toks[:i] + ([T(";", ";")] if kind == "blk2semi" else []) + toks[j + 1:]
+        elif kind == "semi2blk" and idx_semi:
+            i = rng.choice(idx_semi)
+            t = toks[:i] + [T("{", "{"), T("}", "}")] + toks[i + 1:]
+        elif kind == "emptylist" and idx_par:
+            i = rng.choice(idx_par)
+            j = match(i, "(", ")")
+            if j is not None:
+                t = toks[:i + 1] + toks[j:]
+        elif kind == "kwswap" and idx_kw:
+            i = rng.choice(idx_kw)
+            t = list(toks)
+            t[i] = T("id", rng.choice([x for x in ("if", "elsif", "else") if x != toks[i][1].lower()]))
+        if t is not None:
+            out.append((kind, 0, t))
+    return out
+
+
 def sequences(vocab, n):
     for k in range(0, n + 1):
         for seq in itertools.product(vocab, repeat=k):
